@@ -217,8 +217,7 @@ func vHeld(mu *sync.Mutex) bool {
 func vSignals(c *sync.Cond) int { return -1 }
 func vTrackLocks(on bool)        {}
 
-// vDummyFile returns a real scratch file natively (the engine returns an inert *os.File).
-func vDummyFile() *os.File {
+func vNativeDir() string {
 	if vRT.tmpDir == "" {
 		d, err := os.MkdirTemp("", "verif-replay-")
 		if err != nil {
@@ -226,7 +225,12 @@ func vDummyFile() *os.File {
 		}
 		vRT.tmpDir = d
 	}
-	f, err := os.CreateTemp(vRT.tmpDir, "file-")
+	return vRT.tmpDir
+}
+
+// vDummyFile returns a real scratch file natively (the engine returns an inert *os.File).
+func vDummyFile() *os.File {
+	f, err := os.CreateTemp(vNativeDir(), "file-")
 	if err != nil {
 		panic(err)
 	}
